@@ -72,6 +72,16 @@ func collisionFamilies() [][]uval {
 		{uvPred(mustImm("p")), uvPred(mustTmp("p", t0)), uvPred(mustTmp("p", t0.In(zoneE))), uvPred(mustTmp("p", t0.Add(1))), uvPred(mustTmp("p", wrap)),
 			uvPred(mustImm("pimmutable")), uvPred(mustTmp("q", t0)), uvPred(mustImm("q"))},
 	}
+	// anchors outside the years UnixNano can represent (1678..2262): still one UUID per instant whatever the zone, and
+	// different instants on the same side of the range still apart
+	far := func(y int, m time.Month, d int) time.Time { return time.Date(y, m, d, 12, 0, 0, 0, time.UTC) }
+	fams = append(fams, []uval{
+		uvPred(mustTmp("p", far(1500, 6, 1))), uvPred(mustTmp("p", far(1500, 6, 1).In(zoneE))), uvPred(mustTmp("p", far(1500, 6, 1).In(zoneW))),
+		uvPred(mustTmp("p", far(1564, 4, 26))), uvPred(mustTmp("p", far(1616, 4, 23))), uvPred(mustTmp("p", far(1066, 10, 14).In(zoneE))),
+		uvPred(mustTmp("p", far(1066, 10, 14))), uvPred(mustTmp("p", far(2364, 1, 1))), uvPred(mustTmp("p", far(2365, 1, 1))),
+		uvPred(mustTmp("p", far(2500, 1, 1))), uvPred(mustTmp("p", far(2500, 1, 1).In(zoneW))), uvPred(mustTmp("p", far(9999, 12, 31).In(zoneE))),
+		uvPred(mustTmp("p", far(9999, 12, 31))),
+	})
 	// triples that differ in exactly one of the near-colliding components
 	mkT := func(s *node.Node, p *predicate.Predicate, o *triple.Object) uval {
 		t, _ := triple.New(s, p, o)
